@@ -44,7 +44,7 @@ func (c11) RunBatch(ctx *core.Ctx, batch int) {
 	}
 	if batch == plan.total() {
 		// full leaf alphabet under every operator, every default field
-		sp := qt.NewSpace(qt.FullLeaves())
+		sp := qt.NewSpace(append(qt.FullLeaves(), qt.ExtraLeaves()...))
 		for _, t := range sp.D1 {
 			in := qt.Print(t, qt.Style{})
 			for _, f := range c11Fields {
